@@ -313,6 +313,34 @@ func c05Check(sc c05Scenario, obs *c05Obs) (sig, msg string) {
 				return "partial-transaction-visible", fmt.Sprintf("querier %d sees %d of the %d stored samples of transaction %s (t=%d): seen=%v", qi, vis, len(st), tx.Name, tx.T, q.seen)
 			}
 			if obs.commitRet[tx.Name] != 0 && obs.commitRet[tx.Name] < q.createStart && vis == 0 {
+				// Same known-finding class as above, seen from the other side: EVERY stored sample of the
+				// committed transaction sits behind an earlier sample of the same series that belongs to a
+				// transaction whose commit had not finished when the querier was created.
+				behind := 0
+				var blocker string
+				for _, sk := range st {
+				scan:
+					for _, o := range all {
+						if o.Name == tx.Name || o.T >= tx.T || (obs.commitRet[o.Name] != 0 && obs.commitRet[o.Name] <= q.createStart) {
+							continue
+						}
+						for _, osk := range o.Series {
+							if osk != sk {
+								continue
+							}
+							if v, ok := obs.final[sk][o.T]; ok && v == o.V {
+								if _, seen := q.seen[sk][o.T]; !seen {
+									behind++
+									blocker = fmt.Sprintf("%s@%d of transaction %s", sk, o.T, o.Name)
+									break scan
+								}
+							}
+						}
+					}
+				}
+				if behind == len(st) {
+					return "committed-hidden-behind-uncommitted-sample-in-same-series", fmt.Sprintf("transaction %s: Commit returned (clock %d) before querier %d was created (clock %d) but its samples are invisible: each sits behind an earlier sample of the same series (%s) whose commit had not finished when the querier was created, and the series is cut at the first invisible sample. seen=%v", tx.Name, obs.commitRet[tx.Name], qi, q.createStart, blocker, q.seen)
+				}
 				return "committed-before-querier-invisible", fmt.Sprintf("transaction %s: Commit returned (clock %d) before querier %d was created (clock %d) but its samples are invisible: seen=%v", tx.Name, obs.commitRet[tx.Name], qi, q.createStart, q.seen)
 			}
 			if obs.commitCall[tx.Name] > q.createEnd && vis != 0 {
